@@ -25,7 +25,8 @@ def _base(rng, **over):
          "auto_ack": bool(crc) and rng.random() < 0.75, "ask_no_ack": rng.random() < 0.25,
          "pipe": rng.randrange(6), "flavour": rng.choice(["pin", "hwcs", "bus"]),
          "btype": rng.choice(["bytes", "bytearray"]), "static": None, "form": "single",
-         "lens": [5], "seed": rng.getrandbits(30), "ard": None, "pingpong": rng.random() < 0.3}
+         "lens": [5], "seed": rng.getrandbits(30), "ard": None, "pingpong": rng.random() < 0.3,
+         "plus": rng.random() < 0.9}
     c.update(over)
     return c
 
